@@ -7,3 +7,4 @@ import CtyModel.Props.C14
 import CtyModel.Props.C18
 import CtyModel.Props.C05
 import CtyModel.Props.C04
+import CtyModel.Props.C16
